@@ -566,4 +566,64 @@ theorem run_asks (anyD : Nat) (st : Bool) : ∀ (qs : List Query) (s : St), Fres
     simp only [List.map_cons, run]
     rw [ask_answer anyD s q h, run_asks anyD st qs _ (ask_fresh anyD s q h), ask_graph]
 
+/-! ## provider look-ups through the memoised type queries -/
+
+theorem askAll_spec (anyD : Nat) : ∀ (qs : List Query) (s : St), Fresh anyD s →
+    (askAll anyD s qs).2 = qs.map (eval s.g anyD) ∧ Fresh anyD (askAll anyD s qs).1 ∧ (askAll anyD s qs).1.g = s.g
+  | [], _, h => ⟨rfl, h, rfl⟩
+  | q :: qs, s, h => by
+    have ih := askAll_spec anyD qs _ (ask_fresh anyD s q h)
+    rw [ask_graph] at ih
+    simp only [askAll, List.map_cons]
+    exact ⟨by rw [ask_answer anyD s q h, ih.1], ih.2.1, ih.2.2⟩
+
+theorem heuristicFromAnswers_eval (g : Graph) (anyD : Nat) (T : Ty) : ∀ tbl : Table,
+    heuristicFromAnswers tbl ((heuristicQueries tbl T).map (eval g anyD)) =
+      tbl.flatMap fun p =>
+        match dist g anyD T p.1 with
+        | some d => p.2.map (fun i => (i, some d))
+        | none => []
+  | [] => rfl
+  | p :: tbl => by
+    have ih := heuristicFromAnswers_eval g anyD T tbl
+    simp only [heuristicQueries, List.map_cons, eval, List.flatMap_cons] at ih ⊢
+    cases hd : dist g anyD T p.1 with
+    | none => simp only [heuristicFromAnswers]; rw [ih]; rfl
+    | some d => simp only [heuristicFromAnswers]; rw [ih]
+
+theorem randomFromAnswers_eval (g : Graph) (anyD : Nat) (T : Ty) : ∀ tbl : Table,
+    randomFromAnswers tbl ((randomQueries tbl T).map (eval g anyD)) =
+      tbl.flatMap fun p => if isMaybeSubtype g p.1 T then p.2 else []
+  | [] => rfl
+  | p :: tbl => by
+    have ih := randomFromAnswers_eval g anyD T tbl
+    simp only [randomQueries, List.map_cons, eval, List.flatMap_cons] at ih ⊢
+    cases hd : isMaybeSubtype g p.1 T with
+    | false => simp only [randomFromAnswers]; rw [ih]; rfl
+    | true => simp only [randomFromAnswers]; rw [ih]; rfl
+
+/-- with a memo that agrees with the graph, the heuristic provider's look-up through the memo hands out exactly
+`offeredHeuristic` of the current graph (same generators, same stored distances), and leaves such a memo behind -/
+theorem offeredHeuristicM_fresh (anyD : Nat) (prims : List Cls) (tbl : Table) (s : St) (T : Ty) (h : Fresh anyD s) :
+    (offeredHeuristicM anyD prims tbl s T).2 = offeredHeuristic s.g anyD prims tbl T ∧
+    Fresh anyD (offeredHeuristicM anyD prims tbl s T).1 ∧ (offeredHeuristicM anyD prims tbl s T).1.g = s.g := by
+  have sp := askAll_spec anyD (heuristicQueries tbl T) s h
+  cases T with
+  | any => exact ⟨rfl, h, rfl⟩
+  | _ =>
+    simp only [offeredHeuristicM, offeredHeuristic]
+    split
+    · exact ⟨rfl, h, rfl⟩
+    · exact ⟨(by simp only [sp.1, heuristicFromAnswers_eval] <;> rfl), sp.2.1, sp.2.2⟩
+
+theorem offeredRandomM_fresh (anyD : Nat) (tbl : Table) (s : St) (T : Ty) (h : Fresh anyD s) :
+    (offeredRandomM anyD tbl s T).2 = offeredRandom s.g tbl T ∧
+    Fresh anyD (offeredRandomM anyD tbl s T).1 ∧ (offeredRandomM anyD tbl s T).1.g = s.g := by
+  have sp := askAll_spec anyD (randomQueries tbl T) s h
+  cases T with
+  | any => exact ⟨rfl, h, rfl⟩
+  | _ =>
+    simp only [offeredRandomM, offeredRandom]
+    exact ⟨(by simp only [sp.1, randomFromAnswers_eval] <;> rfl), sp.2.1, sp.2.2⟩
+
 end PynguinModel.Generators
